@@ -16,7 +16,7 @@ CLAIMED = {
              "schedules (every allocation of sliding windows, every n-th with phases, seeded random, and a collection at each of the N allocations that follow a large allocation, i.e. right after a stack / vector / string / table grew; freed memory poisoned) and TLC accepts a run only if every post-GC heap walk is clean and "
              "its output and exit status equal those of the reference run. A rejected run is bisected to the fatal collection and keyed by the C function holding the unrooted value.",
         design_ref="5/C02",
-        note="Schedules are sampled per run in the quick tier (thorough covers every allocation index of each program); programs are a fixed catalogue in harness/scm/gcprogs; "
+        note="The quick tier puts a collection before every allocation of every program (every=2, both phases) plus a seeded sparse schedule and the after-growth schedules; thorough adds every=1 and more frequencies and three heap sizes; programs are a fixed catalogue of 13 in harness/scm/gcprogs (C primitives of the core and of the C-backed libraries); a rejected run is reported only if it fails again when repeated; "
              "collections are armed only after library loading (bootstrap keeps raw C strings in traced slots by design). Trusted: TLC, hooks H1-H3."),
     "C16": dict(
         engine="heap",
